@@ -343,15 +343,12 @@ class FileInfo(os.PathLike):
 
     @classmethod
     def from_json_dict(cls, json_dict):
-        times = []
-        for i in range(2):
-            if json_dict["times"][i] is None:
-                times.append([None])
-            else:
-                times.append(
-                    datetime.strptime(
-                        json_dict["times"][i], "%Y-%m-%dT%H:%M:%S.%f"),
-                )
+        # Exactly two timestamps are expected (checked by the times setter);
+        # anything else is a damaged entry and must not be guessed at:
+        times = [
+            datetime.strptime(time, "%Y-%m-%dT%H:%M:%S.%f")
+            for time in json_dict["times"]
+        ]
 
         return cls(json_dict["path"], times, json_dict["attr"])
 
